@@ -1103,6 +1103,18 @@ Proof.
     apply (s_label P pre pre_SC dok pre_notd); [apply IHs; [lia|exact Hw]|apply stoks_ss; exact Hw].
   - contradiction.
 Qed.
+
+(* the items of a block, each parsed back as a block item *)
+Lemma block_items_ok : forall items, swfl dok items ->
+  Forall (item_ok P pre dok) (map (fun y => (stoks rp y, embs y, sopen y)) items).
+Proof.
+  intros items Hw. apply Forall_forall. intros it Hin. apply in_map_iff in Hin. destruct Hin as [y [<- Hy]].
+  assert (Hwy: bwfd dok y).
+  { clear -Hw Hy. induction items as [|z r IHr]; [destruct Hy|]. destruct Hw as [Hz Hr]. destruct Hy as [->|Hy]; [exact Hz|apply IHr; assumption]. }
+  unfold item_ok. destruct y as [e| |o| | |l|c th el|c b|b c|i c nx b|items2|lb b|ty dx di].
+  13: { right. cbn [bwfd] in Hwy. cbn [sopen]. exact (decl_item ty dx di Hwy). }
+  all: left; cbn [bwfd] in Hwy; (split; [exact (S_all _ _ (le_n _) Hwy)|]); split; [apply stoks_head; exact Hwy|apply embs_node].
+Qed.
 End MainS.
 
 (* ---- the theorems ---- *)
